@@ -147,12 +147,14 @@ def norm_loopvars(t):
 
 def prim(fb, name, *args, **kw):
     """the value a workspace function returns for symbolic arguments (exactly one non-panicking return path required)"""
-    from .facts import MissingAnchor
+    from .facts import ShapeViolation
     it = fb.need(name)
     eng = Engine(fb, inline=kw.get("inline"))
     ps = ret_paths(eng.run(it, args=list(args)))
     if len(ps) != 1:
-        raise MissingAnchor("%s is specified as straight-line, found %d return paths" % (name, len(ps)))
+        conds = [sh(a, 80) for p in ps for a, v in p.conds()][:2]
+        raise ShapeViolation("%s is specified as one straight-line computation for all inputs, found %d return paths%s: a value-dependent "
+                             "case split in a codec / formula primitive" % (name, len(ps), (" (distinguished by %s)" % "; ".join(conds)) if conds else ""), it)
     return eng.value_of(ps[0].store, ps[0].ret)
 
 
